@@ -436,12 +436,11 @@ func run(r *core.Run) {
 				&fail{"empty", "accepted as the empty program", s.String()})
 		}
 	}
-	for n := 1; n <= maxLen; n++ {
+	tokenLen := func(n int) {
 		if r.Expired() {
-			r.Cap(fmt.Sprintf("token sequences of length %d..%d not started", n, maxLen))
-			break
+			r.Cap(fmt.Sprintf("token sequences of length %d not started", n))
+			return
 		}
-		n := n
 		core.ParallelRange(r, lim("T-tokens", pow(T, n)), func(int) *seqWorker { return &seqWorker{r: r, t: p.get()} }, func(w *seqWorker, i int64) {
 			lv := lvUniform
 			switch {
@@ -457,7 +456,9 @@ func run(r *core.Run) {
 			w.process(w.seqTokens(n, i), &seqOpts{level: lv, frames: n <= singlesLen, domain: "tokens", nontriv: n <= 4, nvar: nvar})
 		})
 	}
-
+	for n := 1; n <= maxLen && n <= 4; n++ {
+		tokenLen(n)
+	}
 	extLen := 2
 	if thorough {
 		extLen = 3
@@ -587,6 +588,11 @@ func run(r *core.Run) {
 	r.Bound("T-prod.texts", prodTexts)
 
 	phase("T-prod")
+	// the two big token spaces last, so that a soft deadline cannot starve the cheap phases
+	for n := 5; n <= maxLen; n++ {
+		tokenLen(n)
+	}
+	phase("T-tokens56")
 	// ---------------------------------------------------------------- wrap up
 	sum := p.merge(r)
 	keys := make([]string, 0, len(sum.outcomes))
